@@ -10,14 +10,16 @@ from checklib.guarded import Guarded
 from gens import docs, sweep, harness, mutate
 
 MANIFEST = dict(
-    technique="Coq theorems on the parse-loop / transformer model (error classes by construction and by induction) + reflection on the generated grammar + extracted-model correspondence on a malformed-input stream",
-    text=("Coq (Props/C11.v): on the model, for EVERY text the retyping hook can no longer fail (its only partial operation, value_stack[-1], is guarded - the former IndexError is listed as fixed), "
-          "every failure of the transformer stage is a lark VisitError (induction over the tree, all callbacks), every failure of the lexer is UnexpectedCharacters/UnexpectedToken with the position of the offending token, "
-          "and - by vm_compute on the generated grammar - each of the block types the grammar can open is accepted at the root. An LR table validator (Proofs/LRFacts.v) is proved sound and discharged by vm_compute on the LALR table "
-          "Lark built for the current grammar, so the driver's internal failure modes (missing rule/goto, stack underflow, assertion, inlining a token) are excluded for every text; PARTIAL only on exhaustion of the model's reduce fuel. "
+    technique="Coq universal theorems on the regex/lexer/LR/transformer model (failure classes of loads for every text, fuel adequacy, grammar conformance of returned trees) with table and scanner validators proved sound and discharged by vm_compute on the generated grammar + extracted-model correspondence on a malformed-input stream + deadline-guarded runs of the real loads",
+    text=("Coq (Props/C11.v): on the model, for EVERY text, loads returns a value or fails with a lark VisitError or an UnexpectedCharacters/UnexpectedToken carrying the offending position - nothing else (C11_loads_failure_classes, no longer partial). "
+          "Ingredients: the retyping hook is total (its only partial operation is guarded - the former IndexError is listed as fixed); every failure of the transformer stage is a VisitError (induction over the tree, all callbacks); "
+          "an LR table validator (Proofs/LRFacts.v) is proved sound and discharged by vm_compute on the LALR table Lark built for the current grammar, so the driver's internal failure modes (missing rule/goto, stack underflow, assertion, inlining a token) are excluded; "
+          "Proofs/Fuel.v shows the model never runs out of fuel: every terminal pattern of every scanner is non-nullable (kernel-evaluated, sound nullability analysis), so every token consumes a character, the matcher's answer is independent of its fuel once it covers the rest of the input, "
+          "and a second validator bounds the reductions between two shifts by the model's own bound; Proofs/LRTyping.v shows every returned tree conforms to the grammar (symbol-typing invariant of the stacks). By vm_compute each of the block types the grammar can open is accepted at the root. "
           "The correspondence runs compare the extracted model with the real loads on token-level mutations of corpus and "
-          "generated documents, token soups, unterminated constructs, nested expressions up to depth 100 and long repetitive inputs. Wall-clock time and the interpreter recursion limit are outside the model: the hunter measures time against length."),
-    design_ref="DESIGN.md 7/C11",
+          "generated documents, token soups, unterminated constructs, nested expressions up to depth 100 and long repetitive inputs. Wall-clock time and the interpreter recursion limit are outside the model: the hunter runs every input in a child process under a deadline "
+          "(a pattern that explodes cannot be interrupted inside CPython) and measures time against length."),
+    design_ref="DESIGN.md 7/C11, 11.2",
     note="C11: lines starting with INCLUDE are neutralised in generated inputs (INCLUDE expansion and its I/O errors belong to C15). Lark run-time, CPython re modelled.")
 
 COMPONENTS = ["parser"]
